@@ -118,7 +118,7 @@ pub fn dispatch(op: &str, a: &[Arg]) -> Option<String> {
             2 | 9 => 1,
             5 | 6 | 11 => 0,
             10 => 4,
-            13 => 3,
+            13 => 5,
             14 => {
                 base = Some(a[start].b().to_vec());
                 1
@@ -221,7 +221,8 @@ pub fn dispatch(op: &str, a: &[Arg]) -> Option<String> {
             Err(e) => format!("[PANIC {}]", panic_class(&e)),
         }
     };
-    let fin = if finished { "NONE".to_string() } else { ob(buf.borrow().get_ref()) };
+    let _ = finished;
+    let fin = ob(buf.borrow().get_ref());
     if op == "wprog_calls" {
         return Some(format!("[{}]", *calls.borrow()));
     }
